@@ -78,7 +78,7 @@ def build_shim():
     return SHIM
 
 
-def run_harness(cases, tag, fake_epoch=None, jobs=8, timeout_s=45):
+def run_harness(cases, tag, fake_epoch=None, jobs=8, timeout_s=45, logger=False):
     """cases: list of case dicts (each with a unique 'id'). Returns list of observation dicts in order."""
     build_harness()
     d = os.path.join(OUT, "run")
@@ -89,6 +89,8 @@ def run_harness(cases, tag, fake_epoch=None, jobs=8, timeout_s=45):
         for c in cases:
             f.write(json.dumps(c, ensure_ascii=False) + "\n")
     env = dict(os.environ, TZ="UTC")
+    if logger:
+        env["SCV_LOGGER"] = "1"        # the library's log statements are evaluated (as after SmartCalc::initialize())
     if fake_epoch is not None:
         env["LD_PRELOAD"] = build_shim()
         env["VERIF_FAKE_EPOCH"] = str(int(fake_epoch))
